@@ -145,8 +145,10 @@ func Check12(c Case12, r *core.Rec) {
 		r.Class("via:" + c.Via)
 	}
 	var handles []*url.SearchParams
+	var passed []*url.SearchParams // clones handed to SetSearchParams (see swap-list)
 	var model listModel
 	modelKnown := false // the expected list is known once a handle exists
+	untracked := false  // ... and unknown again after a mutation through a clone handed to SetSearchParams, until the next SetSearch
 	var namesInPlay []string
 	sawSetSearch, oldHandleMutation := false, false
 	handleBeforeSetSearch := map[int]bool{}
@@ -154,7 +156,7 @@ func Check12(c Case12, r *core.Rec) {
 		switch o.Kind {
 		case "fetch":
 			h := u.SearchParams()
-			if !modelKnown {
+			if !modelKnown && !untracked {
 				model = collapseList(spec.ParseURLEncoded(u.Query()))
 				if !validUTF8List(model) {
 					r.Vacuous()
@@ -171,11 +173,27 @@ func Check12(c Case12, r *core.Rec) {
 			if len(handles) == 0 {
 				continue
 			}
-			hi := o.Handle % len(handles)
-			h := handles[hi]
 			if (o.SP.Op == "sort" || o.SP.Op == "sortabs") && sortAmbiguous(model) {
 				return
 			}
+			if mutating := o.SP.Op == "append" || o.SP.Op == "delete" || o.SP.Op == "set" || o.SP.Op == "sort" || o.SP.Op == "sortabs" || o.SP.Op == "iterate"; mutating && len(passed) > 0 && o.Handle%4 == 3 {
+				// a mutation through a clone that was handed to SetSearchParams: whether it still reaches
+				// the URL is the implementation's business; if it does, the URL and its own list must
+				// agree after it. What the list holds is not tracked any further (until a SetSearch).
+				q0 := u.Query()
+				applyImpl(passed[len(passed)-1], o.SP)
+				own := u.SearchParams().String()
+				if q := u.Query(); q != q0 && q != own {
+					r.Failf("after %s (through the clone handed to SetSearchParams): Query() changed from %s to %s but u.SearchParams() serializes as %s", hist12(c, i), quote(q0), quote(q), quote(own))
+					return
+				}
+				model, modelKnown, untracked = nil, false, true
+				handles = []*url.SearchParams{u.SearchParams()}
+				r.Class("op:sp-through-passed-clone")
+				continue
+			}
+			hi := o.Handle % len(handles)
+			h := handles[hi]
 			applyImpl(h, o.SP)
 			model = model.apply(o.SP)
 			namesInPlay = append(namesInPlay, string(o.SP.Name))
@@ -229,7 +247,7 @@ func Check12(c Case12, r *core.Rec) {
 			if !validUTF8List(want) {
 				return // invalid UTF-8 in the decoded list: exact comparison through getters is not meaningful
 			}
-			model, modelKnown = want, true
+			model, modelKnown, untracked = want, true, false
 			// I2: every live handle and a fresh one equal the form-urlencoded parse of the new query
 			all := append(append([]*url.SearchParams{}, handles...), u.SearchParams())
 			for hi, h := range all {
@@ -242,27 +260,29 @@ func Check12(c Case12, r *core.Rec) {
 					return
 				}
 			}
-		case "swap-list":
-			// the URL is given a copy of its own list as its list: from now on that copy is "its
-			// SearchParams" (the handles obtained before are no longer and are dropped)
+		case "swap-list", "lend-list":
+			// SetSearchParams is outside the statement's operations, so nothing is asked about what it
+			// does to handles obtained before it: they are dropped, and the URL's own list is fetched
+			// again. What IS asked afterwards is the statement's invariant for u and that list.
+			//  swap-list: the URL is given a Clone of its own list; the clone the caller still holds is
+			//   kept as a "passed" handle: if a mutation through it reaches the URL at all, the URL and
+			//   the list it hands out must still agree.
+			//  lend-list: another URL is handed this URL's list.
 			if len(handles) == 0 {
 				continue
 			}
-			sp := u.SearchParams().Clone()
-			u.SetSearchParams(sp)
-			handles = []*url.SearchParams{sp}
-			handleBeforeSetSearch = map[int]bool{0: !sawSetSearch}
-			r.Class("op:swap-list")
-		case "lend-list":
-			// another URL is handed this URL's list; u and its list must keep describing the same query
-			if len(handles) == 0 {
-				continue
-			}
-			if other, oerr := url.Parse("http://other.example/?z=26"); oerr == nil && other != nil {
+			if o.Kind == "swap-list" {
+				sp := u.SearchParams().Clone()
+				u.SetSearchParams(sp)
+				passed = append(passed, sp)
+			} else if other, oerr := url.Parse("http://other.example/?z=26"); oerr == nil && other != nil {
 				other.SetSearchParams(u.SearchParams())
 				_ = other.Href(false)
 			}
-			r.Class("op:lend-list")
+			handles = []*url.SearchParams{u.SearchParams()}
+			handleBeforeSetSearch = map[int]bool{0: !sawSetSearch}
+			// (the expected list is unchanged: a Clone holds the same pairs, lending changes nothing)
+			r.Class("op:" + o.Kind)
 		case "setter":
 			q0 := u.Query()
 			ApplySetter(u, o.Setter, string(o.Value))
